@@ -46,7 +46,7 @@ def run(prop, dsl, reports, seed, jobs):
     if os.path.exists(sp):
         for m in json.load(open(sp))['mutants']:
             props = [x.strip() for x in m['property'].replace('/', ',').split(',')]
-            if prop in props:
+            if prop in props and m.get('status_on_pinned_suite') not in ('not_property_breaking', 'equivalent'):
                 muts.append(('seed:' + m['id'], m, None))
     for meta in sorted(glob.glob(os.path.join(HERE, 'seeded', '*', 'meta.json'))):
         md = json.load(open(meta))
